@@ -9,7 +9,7 @@ from .. import kll_util as U
 
 NAN = "7ff8000000000000"
 KEY_D2 = "kll-iterator-weights-level0-empty-after-merge"
-KEY_NANRANK = "nan-rank-answered"
+KEY_NANRANK = "kll-nan-rank-answered"
 
 
 def is_pow2(w):
